@@ -69,6 +69,30 @@ Proof. exact (PATH.clean_dot_slash (GS.s "control") eq_refl). Qed.
 Theorem C14_plain_entry_names_clean_to_themselves : forall n, PATH.plain n = true ->
   PATH.clean (PATH.dot :: PATH.slash :: n) = n /\ PATH.clean n = n /\ PATH.clean (n ++ [PATH.slash]) = n.
 Proof. exact PATH.clean_dot_slash. Qed.
+(* the standard arrangement with the path model in the place of the three oracles: for EVERY compression extension of the
+   shape "" or ".<e>", with the control file under any name a tarball gives it, after any other entries *)
+Require D18p.
+Theorem C14_load_standard_package_with_path_model :
+  forall (ctl : Type) untar decompress (decode_control : str -> option ctl) pick,
+  (forall l m, pick l = Some m -> In m l) -> (forall l, l <> [] -> pick l <> None) ->
+  forall junk cext cb dext db extras ctar dtar pre nm text post dfiles c,
+    let cn := s "control.tar" ++ cext in let dn := s "data.tar" ++ dext in
+    let ms := (binary_name, ver20 ++ junk) :: (cn, cb) :: (dn, db) :: extras in
+    D18p.cext_ok cext -> D18p.cext_ok dext -> Forall other extras -> dup_names extras = false ->
+    decompress (match cext with [] => s ".tar" | _ => cext end) cb = Some ctar ->
+    decompress (match dext with [] => s ".tar" | _ => dext end) db = Some dtar ->
+    untar ctar = Some (pre ++ (nm, text) :: post) -> untar dtar = Some dfiles ->
+    Forall (fun f => PATH.clean (fst f) <> s "control") pre -> In nm [s "control"; s "./control"; s "control/"] ->
+    decode_control text = Some c ->
+    load_deb ctl untar decompress PATH.clean decode_control PATH.ext PATH.is_tarfile pick ms =
+      Some {| d_control := c; d_control_bytes := cb; d_data_bytes := db;
+              d_control_ext := s "tar" ++ cext; d_data_ext := s "tar" ++ dext;
+              d_members := ms; d_data_files := dfiles |}.
+Proof. exact D18p.load_standard_package_paths. Qed.
+Theorem C14_other_entries_are_not_the_control_file : forall x, PATH.plain x = true -> x <> s "control" ->
+  PATH.clean x <> s "control" /\ PATH.clean (PATH.dot :: PATH.slash :: x) <> s "control" /\ PATH.clean (x ++ [PATH.slash]) <> s "control".
+Proof. exact D18p.other_entry_not_control. Qed.
+Print Assumptions C14_load_standard_package_with_path_model.
 Print Assumptions C14_control_entry_names.
 Print Assumptions C14_load_standard_package.
 Print Assumptions C14_reject_no_control_member.
